@@ -5,7 +5,7 @@
 // and the next arm). Index arithmetic of the list functions (select, head, tail, in, addv, subv,
 // scalev) is proved in bounds for lists of ANY length; the numeric arms are proved against the
 // documented meaning in the real-number model (NaN / infinities are the Kani unit K-functions).
-//@assume ExprValue::flatten / one_number / number_pair / number_triple meet flat_of / nums_of (slice patterns and recursion over Vec are not translated); `x as usize` on a float is an arbitrary usize (as_usize_spec); `.to_owned()` on an ExprValue is `.clone()`; `&v[1..]` is slice_from(&v, 1) with the same bound check
+//@assume ExprValue::flatten meets flat_of (recursion over Vec not translated); R-slicepat: `if let [a, b] = E.as_slice() {` is `let sl_ = E; if sl_.len() == 2 { let a = &sl_[0]; let b = &sl_[1];` (slice patterns are not translated; one_number / number_pair / number_triple are proved with this rewrite); `x as usize` on a float is an arbitrary usize (as_usize_spec); `.to_owned()` on an ExprValue is `.clone()`; `&v[1..]` is slice_from(&v, 1) with the same bound check
 use vstd::prelude::*;
 //@prelude fmt_macro
 verus! {
@@ -132,12 +132,21 @@ impl ExprValue {
 //@end
     #[verifier::external_body]
     pub fn flatten(&self) -> (r: Vec<ExprValue>) ensures r@ == flat_of(*self) { unimplemented!() }
-    #[verifier::external_body]
-    pub fn one_number(&self) -> (r: Result<R32>) ensures (match num1(*self) { Some(x) => r is Ok && val(r->Ok_0) == x, None => r is Err }) { unimplemented!() }
-    #[verifier::external_body]
-    pub fn number_pair(&self) -> (r: Result<(R32, R32)>) ensures (match num2(*self) { Some(p) => r is Ok && val(r->Ok_0.0) == p.0 && val(r->Ok_0.1) == p.1, None => r is Err }) { unimplemented!() }
-    #[verifier::external_body]
-    pub fn number_triple(&self) -> (r: Result<(R32, R32, R32)>) ensures (match num3(*self) { Some(p) => r is Ok && val(r->Ok_0.0) == p.0 && val(r->Ok_0.1) == p.1 && val(r->Ok_0.2) == p.2, None => r is Err }) { unimplemented!() }
+//@item src/expression.rs :: impl ExprValue :: fn one_number
+//@ replace[R-slicepat] <<<if let [a] = self.number_list()?.as_slice() {>>> => <<<let sl_ = self.number_list()?;\n        if sl_.len() == 1 {\n            let a = &sl_[0];>>>
+//@ ensures
+//@ - (match num1(*self) { Some(x) => r is Ok && val(r->Ok_0) == x, None => r is Err })     @@C14.fn.one_number
+//@end
+//@item src/expression.rs :: impl ExprValue :: fn number_pair
+//@ replace[R-slicepat] <<<if let [a, b] = self.number_list()?.as_slice() {>>> => <<<let sl_ = self.number_list()?;\n        if sl_.len() == 2 {\n            let a = &sl_[0]; let b = &sl_[1];>>>
+//@ ensures
+//@ - (match num2(*self) { Some(p) => r is Ok && val(r->Ok_0.0) == p.0 && val(r->Ok_0.1) == p.1, None => r is Err })     @@C14.fn.number_pair
+//@end
+//@item src/expression.rs :: impl ExprValue :: fn number_triple
+//@ replace[R-slicepat] <<<if let [a, b, c] = self.number_list()?.as_slice() {>>> => <<<let sl_ = self.number_list()?;\n        if sl_.len() == 3 {\n            let a = &sl_[0]; let b = &sl_[1]; let c = &sl_[2];>>>
+//@ ensures
+//@ - (match num3(*self) { Some(p) => r is Ok && val(r->Ok_0.0) == p.0 && val(r->Ok_0.1) == p.1 && val(r->Ok_0.2) == p.2, None => r is Err })     @@C14.fn.number_triple
+//@end
 }
 
 // ------------------------------------------------------------------------------ list functions: indices in bounds for every length
